@@ -86,7 +86,7 @@ def check_outputs(rep, run_id, outs, events, wd, seed, orders=3, shape_of=None):
                        "error": re.sub(r'\d+', 'N', (re.findall(r'error: ([^\n]*)', err) or ["?"])[0])[:120]}
                 if shape_of:
                     # all-headers translation units fail on the first bad header: name the shape of that header
-                    m = re.search(r'([HS]\d+)(?:\.d)?\.(?:h|hpp|mjs)[:\s]', err) if os.path.basename(f).startswith("tu_") else None
+                    m = re.search(r'([HSTO]\d+)(?:\.d)?\.(?:h|hpp|mjs)[:\s]', err) if os.path.basename(f).startswith("tu_") else None
                     sh = shape_of(m.group(1) if m else os.path.basename(f))
                     if sh:
                         key["shape"] = sh
@@ -279,6 +279,23 @@ def run(rep, tier):
         rep.extra["gate_shapes_" + be] = len(sub) if be in ob else 0
         if be not in ob:
             rep.extra.setdefault("gate_subset_rejected", {})[be] = (ob.get("_rejected_" + be) or "")[-600:]
+    # ---- set 2b: methods carrying special-method markers that the extension spec Special.tla accepts (operators, iterators,
+    # indexers, accessors, constructors): the C++ and JS backends turn them into operators / properties / constructors
+    import c15
+    srng = random.Random(lib.seed() + 3)
+    for be in ("cpp", "js"):
+        sp = [x for x in c15.special_items(profs[be]) if not c15.known_shape(be, x[3])]
+        srng.shuffle(sp)
+        sp = sp[: (40 if tier == "quick" else 2000)]
+        by_type = {}
+        for x in sp:
+            for tn in re.findall(r'pub (?:struct|enum) (\w+)', x[1]):
+                by_type[tn] = x[3]
+        eb = os.path.join(wd, "special_%s.rs" % be)
+        open(eb, "w").write("#[diplomat::bridge]\npub mod ffi {\n    use diplomat_runtime::DiplomatWrite;\n" + "\n".join(x[1] for x in sp) + "}\n")
+        ob = run_set(rep, "special_" + be, None, wd, events, build=False, entry=eb, backends=(be,),
+                     shape_of=lambda f, _m=by_type: _m.get(re.sub(r'\..*$', '', f)))
+        rep.extra["special_shapes_" + be] = len(sp) if be in ob else 0
     if outs.get("_macro_failed"):
         # attribute the failure: one bridge module per shape (own copies of the helper types), so that the line of the
         # offending #[diplomat::bridge] attribute names the shape
